@@ -23,7 +23,7 @@ def bits(n):
 # ---------------------------------------------------------------------------
 # structural oracle
 
-def audit(F, what, expected_nv=None):
+def audit(F, what, expected_nv=None, zero_ok=False):
     from cnfgen.formula.baseopb import BaseOPB
     n = F.number_of_variables()
     if not isinstance(n, int) or isinstance(n, bool) or n < 0:
@@ -39,8 +39,9 @@ def audit(F, what, expected_nv=None):
                 raise Violation("{}: degree {!r} is not an integer".format(what, row[-1]))
             for t in row[:-2]:
                 c, l = t
-                if not isinstance(c, int) or isinstance(c, bool) or c < 0:
-                    raise Violation("{}: coefficient {!r} is not a non-negative integer (rows are kept normalised)".format(what, c))
+                # rows are kept normalised: no negative coefficient; a zero only where the caller supplied one himself
+                if not isinstance(c, int) or isinstance(c, bool) or c < 0 or (c == 0 and not zero_ok):
+                    raise Violation("{}: coefficient {!r} is not a positive integer".format(what, c))
                 if not isinstance(l, int) or isinstance(l, bool) or l == 0 or abs(l) > n:
                     raise Violation("{}: literal {!r} outside 1..{} (row {})".format(what, l, n, rows))
                 lits += 1
@@ -693,7 +694,8 @@ def run_history(case):
             raise Violation("{}: the declared number of variables decreased {} -> {}".format(what, before, now))
         if now < top:
             raise Violation("{}: variable {} was mentioned/allotted but only {} are declared".format(what, top, now))
-    audit(F, "history {} ({} steps)".format(case['cls'], len(case['ops'])))
+    audit(F, "history {} ({} steps)".format(case['cls'], len(case['ops'])),
+          zero_ok=any(k == 'add_constraint' and any(p[0] == 0 for p in a[0]) for k, *a in case['ops'] if k == 'add_constraint'))
     if F.number_of_variables() != top:
         raise Violation("history: {} variables declared but the largest mentioned/allotted/requested is {}".format(F.number_of_variables(), top))
     return Outcome(labels=sorted(labels), nontrivial=interesting)
@@ -753,7 +755,7 @@ def strat_history(draw):
 
 SUBCHECKS = [
     SubCheck('families', run_family, strategy=strat_family, quick=1600, thorough=40000,
-             rule="every family through the library at realistic sizes (php up to 40x30, graph families on gnm/regular/grid graphs up to 60 vertices from seeded networkx generators, op 16, stone 14x6, cpls 4x8x8, pitfall 10 vertices, vdw 60, ptn 300, random 4-CNF 200x400, ...), CNF and OPB classes, followed by chains of 0..3 transformations (one clause-expanding step; size bounded before building); oracle: every literal a non-zero int (not bool) within 1..number_of_variables(), OPB coefficients non-negative, number_of_variables() equals the documented count re-derived from the parameters, as many names as variables, no freshness event (hook H1), input untouched by the chain; non-trivial: >=100 rows or a chain applied",
+             rule="every family through the library at realistic sizes (php up to 40x30, graph families on gnm/regular/grid graphs up to 60 vertices from seeded networkx generators, op 16, stone 14x6, cpls 4x8x8, pitfall 10 vertices, vdw 60, ptn 300, random 4-CNF 200x400, ...), CNF and OPB classes, followed by chains of 0..3 transformations (one clause-expanding step; size bounded before building); oracle: every literal a non-zero int (not bool) within 1..number_of_variables(), OPB coefficients positive (zero only where the caller passed a zero himself), number_of_variables() equals the documented count re-derived from the parameters, as many names as variables, no freshness event (hook H1), input untouched by the chain; non-trivial: >=100 rows or a chain applied",
              required_labels=sorted(INSTANCES) + ['CNF', 'OPB', 'chain-length>=2', 'T:xorcomp', 'T:lift', 'T:shuffle']),
     SubCheck('tools', run_cli, strategy=strat_cli, enumerate_cases=enum_cli, quick=600, thorough=20000,
              rule="every sub-command of the catalogue through cnfgen (with -T chains) and pbgen built in-process; same structural oracle on the returned object, and for cnfgen with -T the declared number of variables equals the documented function (x k, x 3, x 2k, N) of the number declared without the chain; enumerated: formulas with variables but no clauses (randkcnf k n 0, ptn 4, or 2 0 -T atmost 2 2, ...) through every transformation and pairs of transformations",
